@@ -41,7 +41,8 @@ def gen_case(rnd, zone, now):
         mask = rnd.choice([0, rnd.randrange(1, 128) * 2, rnd.randrange(1, 128) * 2, rnd.randrange(1, 128) * 2, rnd.choice([1, 255, 3, 253])])
         st = now + rnd.choice([rnd.randrange(-100000, 100000)] * 3 + [rnd.randrange(-300, 300) * 86400 + rnd.randrange(86400)])       # also months away: the other season
         en = st + rnd.choice([rnd.randrange(0, 90000), rnd.randrange(0, 90000), 0, 86400, rnd.randrange(0, 60) - st % 60, 60, 86340])
-        recs.append([rnd.choice([i, i, rnd.randrange(256), rnd.randrange(3)]), rnd.randrange(2), mask, rnd.randrange(2), st % 2 ** 32, en % 2 ** 32,
+        # the enabled flag and the state byte are not part of what a listing reports: any byte value may stand there
+        recs.append([rnd.choice([i, i, rnd.randrange(256), rnd.randrange(3)]), rnd.choice([0, 1, 1, 2, 255, rnd.randrange(256)]), mask, rnd.choice([0, 1, 1, 2, 0x80, 255, rnd.randrange(256)]), st % 2 ** 32, en % 2 ** 32,
                      [rnd.randrange(256) for _ in range(4)]])
     return {"zone": zone, "now": now, "recs": recs, "hdr": world.rand_bytes(rnd, 45).hex(), "tail": world.rand_bytes(rnd, 4).hex(), "cut": None}
 
